@@ -28,9 +28,10 @@ ASSUMPTIONS = [
 
 def _matrix(case):
     M = [[fr(x) for x in row] for row in case["M"]]
+    from props.gcommon import relayout
     if case.get("dtype") == "int":
-        return np.array([[int(x) for x in row] for row in M], dtype=np.int64)
-    return np.array([[float(x) for x in row] for row in M], dtype=float)
+        return relayout(np.array([[int(x) for x in row] for row in M], dtype=np.int64))
+    return relayout(np.array([[float(x) for x in row] for row in M], dtype=float))
 
 
 def labels_of(case, M, cyclic):
